@@ -711,8 +711,9 @@ class tensor:
             )
         rprod = 1 if rdims.size == 0 else np.prod(np.array(tshape)[rdims])
         cprod = 1 if cdims.size == 0 else np.prod(np.array(tshape)[cdims])
+        # Not self.permute: the no-copy path relies on a view when no data has to move
         data = np.reshape(
-            self.permute(dims).data,
+            to_memory_order(np.transpose(self.data, dims), self.order),
             (rprod, cprod),
             order=self.order,
         )
@@ -1280,7 +1281,7 @@ class tensor:
         # Np transpose does error checking on order, acts as permutation
 
         return ttb.tensor(
-            to_memory_order(np.transpose(self.data, order), self.order), copy=False
+            np.transpose(self.data, order).copy(order=self.order), copy=False
         )
 
     def reshape(self, shape: Shape) -> tensor:
